@@ -4,7 +4,7 @@
 From Coq Require Import Qround Qabs.
 From DA Require Import Prelude NDArray Array PyRT.
 From DA.Model Require Import Value Reshape SliceSpec Indexing Align Transform Flatten Ops.
-From DA.Proofs Require Import ListLemmas C10_proofs C06_proofs C05_proofs C05_join.
+From DA.Proofs Require Import ListLemmas C10_proofs C06_proofs C05_proofs C05_join C05_flatten.
 Open Scope string_scope.
 Open Scope nat_scope.
 Open Scope list_scope.
@@ -13,7 +13,7 @@ Open Scope list_scope.
 Definition covered (a : darr) (o : op) : bool :=
   match o with
   | OTranspose _ | OSwapaxes _ _ | ORollaxis _ _ | ORepeat _ _ _ | OSqueeze _
-  | OReduce _ _ AxNone | OReduce _ _ (AxOne _) | OCum _ _ _ | ODiff _ _ _ _ | OArgExt _ _ | ODropna _ _
+  | OReduce _ _ _ | OFlatten _ _ _ | OPercentile _ _ _ _ | OCum _ _ _ | ODiff _ _ _ _ | OArgExt _ _ | ODropna _ _
   | OGet _ _ _ | OPut _ _ _ _ | OScalarOp _ _ _ _ | ONdarrayOp _ _ | OReindex _ _ _ _ _ _ _ | OReindexAxisObj _ | OReindexLike _
   | OFillna _ _ | OSetna _ | OSetnaMask _ | OPutMask _ _ _ | OTakeAxisLabel _ _ | OTakeAxisPos _ _ | OCompressAxis _ _
   | OSortAxis _ | OSortAxisKey _ _ | OInterp _ _ _ _ _ | OInterpLike _ _ _ | OSetLabel _ _ _ _ | OSetDims _ | OIdentity
@@ -58,7 +58,7 @@ Proof.
   - destruct (sort_axis r a) eqn:E; simpl in H; [|discriminate]. injection H as <-. eapply sort_axis_wf; eassumption.
   - destruct (axis_info a r) as [i|]; simpl in H; [|discriminate]. destruct (negb _); [discriminate|]. injection H as <-. apply take_axis_pos_wf. exact Hw.
   - destruct (broadcast_arrays ins) as [l|] eqn:E; simpl in H; [|discriminate]. injection H as <-. simpl. eapply broadcast_arrays_wf; eassumption.
-  - destruct ax; try discriminate; unfold reduce_any in H; eapply reduce_wf; eassumption.
+  - eapply reduce_any_wf; eassumption.
   - destruct (cumulative prod skipna r a) eqn:E; simpl in H; [|discriminate]. injection H as <-. eapply cumulative_wf; eassumption.
   - destruct (diff r sc keepaxis n a) eqn:E; simpl in H; [|discriminate]. injection H as <-. eapply diff_wf; eassumption.
   - destruct r; [eapply argext_axis_wf; eassumption | eapply argext_all_wf; eassumption].
@@ -72,6 +72,7 @@ Proof.
     destruct (compress_axis m i a) eqn:E; simpl in H; [|discriminate]. injection H as <-. eapply compress_axis_wf; eassumption.
   - destruct (interp_axis k news r left right a) eqn:E; simpl in H; [|discriminate]. injection H as <-. eapply interp_axis_wf; eassumption.
   - destruct (interp_like others left right a) eqn:E; simpl in H; [|discriminate]. injection H as <-. eapply interp_like_wf; eassumption.
+  - destruct (flatten rs as_set insert a) eqn:E; simpl in H; [|discriminate]. injection H as <-. eapply flatten_wf; eassumption.
   - destruct (axis_info a r) as [i|]; simpl in H; [|discriminate]. destruct (String.eqb_spec n ""); [discriminate|].
     injection H as <-. apply rename_axis_wf; [exact Hw | assumption |]. apply negb_true_iff in Hc. apply mem_str_false. exact Hc.
   - destruct (axis_info a r) as [j|]; simpl in H; [|discriminate].
@@ -81,6 +82,7 @@ Proof.
     destruct (existsb _ ns) eqn:Ee; [discriminate|]. injection H as <-.
     apply negb_false_iff in El, Ed. apply Nat.eqb_eq in El. apply set_dims_wf; assumption.
   - injection H as <-. exact Hw.
+  - eapply (percentile_wf ins qs scalar kk ax); [exact Hw | exact H].
 Qed.
 
 (* programs: every intermediate and the final result are well-formed *)
